@@ -16,7 +16,7 @@
       6  a line was delivered by a publish that happened after the id's unsubscribe completed
       7  len() still counts a subscription that must be gone (unsubscribed, or closed and
          its topic published since) *)
-From Srtla Require Import Base Hub.
+From Srtla Require Export Base Hub.
 
 (** ---- decidable equality on observable values ---- *)
 Definition op_eqb (a b : op) : bool :=
